@@ -313,3 +313,58 @@ Proof.
     { unfold unregister. now rewrite (lockfree_open_canon s k Hc), Hl. }
     rewrite Hun. cbn [fst]. apply (GWF_prune kempty); auto; [intros x [] | intros Hx; congruence].
 Qed.
+
+(* ---------- metadata ---------- *)
+Lemma WF_chmod s p m : WF s -> WF (fst (m_chmod s p m)).
+Proof. intros W. unfold m_chmod. destruct (lookup s (normalize_path p)); [|exact W]. now apply WF_set_file_mode. Qed.
+Lemma WF_chown s p u g : WF s -> WF (fst (m_chown s p u g)).
+Proof. intros W. unfold m_chown. destruct (lookup s (normalize_path p)); [|exact W]. cbn. apply WF_attr; [apply keeps_owner | exact W]. Qed.
+Lemma WF_chtimes s p t : WF s -> WF (fst (m_chtimes s p t)).
+Proof. intros W. unfold m_chtimes. destruct (lookup s (normalize_path p)); [|exact W]. cbn. apply WF_attr; [apply keeps_mtime | exact W]. Qed.
+Lemma WF_stat s p : WF s -> WF (fst (m_stat s p)).
+Proof. intros W. unfold m_stat. destruct (lookup s (normalize_path p)) as [f|]; [|exact W]. destruct (get_node s f); exact W. Qed.
+
+(* ---------- handle operations ---------- *)
+Lemma WF_m_hop s i k : WF s -> (forall h nd, WF (fst (k h nd))) -> WF (fst (m_hop s i k)).
+Proof.
+  intros W Hk. unfold m_hop. destruct (nth_error (mhandles s) i) as [h|]; [|exact W].
+  destruct (get_node s (href h)) as [nd|]; [apply Hk | exact W].
+Qed.
+
+Lemma WF_put_data s f d : WF s -> WF (put_data s f d).
+Proof.
+  intros W. destruct d as [d|]; [|exact W]. cbn. apply WF_attr; [|exact W].
+  apply (keeps_comp (with_mtime _) (with_data _)); [apply keeps_mtime | apply keeps_data].
+Qed.
+
+Lemma WF_readdir s i h n : WF s -> WF (fst (fst (m_readdir s i h n))).
+Proof.
+  intros W. unfold m_readdir. destruct (get_node s (href h)) as [nd|]; [|exact W].
+  destruct (negb (ndir nd)); [exact W|]. cbn [fst]. now apply WF_set_handle.
+Qed.
+
+Lemma WF_handle_ops s o : WF s ->
+  match o with
+  | HRead _ _ | HReadAt _ _ _ | HWrite _ _ | HWriteAt _ _ _ | HWriteString _ _ | HSeek _ _ _ | HTruncate _ _
+  | HClose _ | HReaddir _ _ | HReaddirnames _ _ | HStat _ | HName _ | HSync _ => WF (fst (m_step_raw s o))
+  | _ => True
+  end.
+Proof.
+  intros W. destruct o; try exact I; cbn [m_step_raw]; apply WF_m_hop; try exact W; intros hd nd.
+  - destruct (f_read (ndata nd) hd n) as [h' r]. now apply WF_set_handle.
+  - destruct (f_readat (ndata nd) hd n off) as [h' r]. now apply WF_set_handle.
+  - destruct (f_write (ndata nd) hd b) as [[d h'] r]. cbn [fst]. apply WF_put_data. now apply WF_set_handle.
+  - destruct (f_writeat (ndata nd) hd b off) as [[d h'] r]. cbn [fst]. apply WF_put_data. now apply WF_set_handle.
+  - destruct (f_write (ndata nd) hd b) as [[d h'] r]. cbn [fst]. apply WF_put_data. now apply WF_set_handle.
+  - destruct (f_seek (ndata nd) hd off whence) as [h' r]. now apply WF_set_handle.
+  - destruct (f_truncate (ndata nd) hd n) as [d r]. cbn [fst]. now apply WF_put_data.
+  - destruct (hclosed hd); [exact W|]. cbn [fst]. destruct (hro hd); [now apply WF_set_handle|].
+    apply WF_attr; [apply keeps_mtime | now apply WF_set_handle].
+  - pose proof (WF_readdir s h hd n W) as Wr. destruct (m_readdir s h hd n) as [[s1 infos] e]. cbn [fst] in Wr.
+    destruct e as [er|]; [destruct infos; [destruct (errk_eqb (ek er) KEOF)|]|]; exact Wr.
+  - pose proof (WF_readdir s h hd n W) as Wr. destruct (m_readdir s h hd n) as [[s1 infos] e]. cbn [fst] in Wr.
+    destruct e as [er|]; [destruct infos; [destruct (errk_eqb (ek er) KEOF)|]|]; exact Wr.
+  - exact W.
+  - exact W.
+  - exact W.
+Qed.
